@@ -90,6 +90,8 @@ def replay_inst(sigs, one, two, stats):
             bad.append(("exception:" + type(e).__name__, {"id": json.loads(k), "a": av, "error": str(e)[:300]}))
             continue
         stats["one"] += 1
+        if any(x[0] == "T" and x[1][0] == "none" for x in av):
+            stats["none_arg"] = stats.get("none_arg", 0) + 1  # preserve flag on a None type argument
         opened = [i for i, x in enumerate(av) if x == ["-"]]
         if opened and any(x != ["-"] for x in av[: opened[-1]]):
             stats["shifted"] += 1  # some kept parameter follows an instantiated one
@@ -145,6 +147,8 @@ def run_inst(ctx, cfgs):
                       {"part": "inst", "cases": cases[:10]})
     if stats["shifted"] == 0:
         raise lib.Machinery("vacuous: no case shifts a de Bruijn index")
+    if stats.get("none_arg", 0) == 0:
+        raise lib.Machinery("vacuous: no case instantiates a type parameter with None")
     return stats, samples
 
 
